@@ -27,7 +27,7 @@ def scenario(ctx, i):
     K = int(r.integers(1, 4 if ctx.tier == "quick" else 6))
     D = int(r.integers(1, 4 if ctx.tier == "quick" else 6))
     N = int(r.integers(max(3 * K, 4), 30 if ctx.tier == "quick" else 100))
-    spread = float(10.0 ** r.choice([-2, 0, 0, 1]))
+    spread = float(10.0 ** r.choice([-6, -4, -2, 0, 0, 1, 3]))  # the unit of the data is arbitrary: variances of 1e-12 or 1e6 are ordinary
     offset = spread * float(r.choice([0, 0, 1e3, 1e6]))
     centers = r.normal(0, 4, size=(K, D)) * spread
     lab = np.concatenate([np.arange(K), r.integers(0, K, N - K)])
